@@ -356,6 +356,26 @@ theorem C04_passive_program_conserves_sum_3d (nz ny nx : ℕ) (hnz : 1 ≤ nz) (
   rw [gsum3_congr nz ny nx _ _ h, diffuse1_sum nz ny nx _ _ (advect3_margin nz ny nx _ _ _ _ _ hm),
     C04_advect3_conserves_sum nz ny nx _ _ _ _ _ hm]
 
+/-- C04 (grid sum, 3D passive-transport step PROGRAM of a VECTOR field): the grid sum of EVERY component is unchanged, for
+any velocity field, viscosity and dt, when the component vanishes within 4 cells of the boundary (one shared flux buffer) -/
+theorem C04_passive_vec_program_conserves_sum_3d (nz ny nx : ℕ) (hnz : 1 ≤ nz) (hny : 1 ≤ ny) (hnx : 1 ≤ nx) (f : Vec3 B) (flux : B)
+    (vel : Vec3 B) (hfv : C13.Distinct33 f vel) (hfx : flux ≠ f.x) (hfy : flux ≠ f.y) (hfz : flux ≠ f.z)
+    (hvx : vel.x ≠ flux) (hvy : vel.y ≠ flux) (hvz : vel.z ≠ flux) (dt dx nu : K) (s : Store3 B K)
+    (hmx : Margin3 nz ny nx 4 (s f.x)) (hmy : Margin3 nz ny nx 4 (s f.y)) (hmz : Margin3 nz ny nx 4 (s f.z)) :
+    gsum3 nz ny nx (exec3 (passiveStepVec3D nz ny nx f flux vel dt dx nu) s f.x) = gsum3 nz ny nx (s f.x) ∧
+    gsum3 nz ny nx (exec3 (passiveStepVec3D nz ny nx f flux vel dt dx nu) s f.y) = gsum3 nz ny nx (s f.y) ∧
+    gsum3 nz ny nx (exec3 (passiveStepVec3D nz ny nx f flux vel dt dx nu) s f.z) = gsum3 nz ny nx (s f.z) := by
+  obtain ⟨hx, hy, hz⟩ := C01_passive_step_vec_3d (nz : ℤ) (ny : ℤ) (nx : ℤ) (by exact_mod_cast hnz) (by exact_mod_cast hny)
+    (by exact_mod_cast hnx) f flux vel hfv hfx hfy hfz hvx hvy hvz dt dx nu s
+  simp only [vecOf, diffuseOp3, advectV3] at hx hy hz
+  refine ⟨?_, ?_, ?_⟩
+  · rw [gsum3_congr nz ny nx _ _ hx, diffuse1_sum nz ny nx _ _ (advect3_margin nz ny nx _ _ _ _ _ hmx),
+      C04_advect3_conserves_sum nz ny nx _ _ _ _ _ hmx]
+  · rw [gsum3_congr nz ny nx _ _ hy, diffuse1_sum nz ny nx _ _ (advect3_margin nz ny nx _ _ _ _ _ hmy),
+      C04_advect3_conserves_sum nz ny nx _ _ _ _ _ hmy]
+  · rw [gsum3_congr nz ny nx _ _ hz, diffuse1_sum nz ny nx _ _ (advect3_margin nz ny nx _ _ _ _ _ hmz),
+      C04_advect3_conserves_sum nz ny nx _ _ _ _ _ hmz]
+
 end Passive
 
 end Sopht.Props.C04
